@@ -1,6 +1,7 @@
 package main
 
 import (
+	"go/ast"
 	"fmt"
 	"go/token"
 	"strings"
@@ -121,10 +122,30 @@ func checkC20(p *Program, r *Result) {
 	checkReuseBeforeGrow(p, r)
 	// ---- d
 	n := 0
+	// the caller is NextInto, or an unexported helper that is itself only ever called (transitively) from NextInto
+	var onlyFromNextInto func(fn *ssa.Function, depth int) bool
+	onlyFromNextInto = func(fn *ssa.Function, depth int) bool {
+		if funcName(fn) == "mcap.indexedMessageIterator.NextInto" {
+			return true
+		}
+		if depth <= 0 || ast.IsExported(fn.Name()) {
+			return false
+		}
+		sites := p.staticCallers(fn)
+		if len(sites) == 0 {
+			return false
+		}
+		for _, s := range sites {
+			if !onlyFromNextInto(s.Parent(), depth-1) {
+				return false
+			}
+		}
+		return true
+	}
 	for _, fn := range p.repoFunctions(pkgMcap) {
 		for _, ci := range callsIn(fn, func(ci ssa.CallInstruction) bool { return calleeRepoName(ci) == "mcap.indexedMessageIterator.loadChunk" }) {
 			n++
-			if funcName(fn) != "mcap.indexedMessageIterator.NextInto" {
+			if !onlyFromNextInto(fn, 3) {
 				r.violated("C20.d", funcName(fn), "call of loadChunk", p.pos(ci.Pos()), "chunks must be loaded lazily, one per turn of the yield loop in NextInto; loading elsewhere keeps more chunks in memory than the overlap requires")
 				continue
 			}
